@@ -27,20 +27,20 @@ Proof. intros E. rewrite <- (rev_involutive l), E. reflexivity. Qed.
 
 (* ---- newToWriteBuf ---- *)
 Lemma new_buf_closed c b : closed (new_buf c b) = closed c.
-Proof. unfold new_buf; destruct (rev (wlist c)) as [|[d off|fid off rem] rl]; try destruct (_ <? _)%N; reflexivity. Qed.
+Proof. unfold new_buf; destruct (_ =? _)%N; auto; destruct (rev (wlist c)) as [|[d off|fid off rem] rl]; try destruct (_ <? _)%N; reflexivity. Qed.
 Lemma new_buf_wire c b : wire (new_buf c b) = wire c.
-Proof. unfold new_buf; destruct (rev (wlist c)) as [|[d off|fid off rem] rl]; try destruct (_ <? _)%N; reflexivity. Qed.
+Proof. unfold new_buf; destruct (_ =? _)%N; auto; destruct (rev (wlist c)) as [|[d off|fid off rem] rl]; try destruct (_ <? _)%N; reflexivity. Qed.
 Lemma new_buf_cerr c b : cerr (new_buf c b) = cerr c.
-Proof. unfold new_buf; destruct (rev (wlist c)) as [|[d off|fid off rem] rl]; try destruct (_ <? _)%N; reflexivity. Qed.
-Lemma new_buf_nonempty c b : wlist (new_buf c b) <> [].
-Proof.
-  unfold new_buf, push; destruct (rev (wlist c)) as [|[d off|fid off rem] rl]; try destruct (_ <? _)%N;
-    cbn [wlist set_wlist set_left]; intros E; apply app_eq_nil in E; destruct E; discriminate.
-Qed.
+Proof. unfold new_buf; destruct (_ =? _)%N; auto; destruct (rev (wlist c)) as [|[d off|fid off rem] rl]; try destruct (_ <? _)%N; reflexivity. Qed.
+
+Lemma den_empty b : (blen b =? 0)%N = true -> den b = [].
+Proof. intros H. apply length_zero_iff_nil. rewrite <- len_den. lia. Qed.
 
 Lemma new_buf_pending c b : wf c -> pending (new_buf c b) = pending c ++ den b.
 Proof.
-  intros Hwf. unfold new_buf, pending, push.
+  intros Hwf. unfold new_buf. destruct (blen b =? 0)%N eqn:E0.
+  { now rewrite (den_empty b E0), app_nil_r. }
+  unfold pending, push.
   destruct (rev (wlist c)) as [|[d off|fid off rem] rl] eqn:E; cbn [wlist set_wlist set_left].
   - now rewrite pend_app, pend_one.
   - apply rev_cons_inv in E.
@@ -55,7 +55,8 @@ Qed.
 
 Lemma new_buf_wf c b : wf c -> wf (new_buf c b).
 Proof.
-  intros Hwf. unfold new_buf, wf, push in *.
+  intros Hwf. unfold new_buf. destruct (blen b =? 0)%N eqn:E0; [exact Hwf|].
+  unfold wf, push in *.
   destruct (rev (wlist c)) as [|[d off|fid off rem] rl] eqn:E; cbn [wlist set_wlist set_left].
   - apply Forall_app; split; auto. constructor; cbn; auto. lia.
   - apply rev_cons_inv in E.
@@ -307,6 +308,32 @@ Proof.
       * apply close_inv; auto. split; [|split]; auto. unfold wf. rewrite El. constructor; auto.
 Qed.
 
+(* every queued item has something to send, so flush never meets an item it cannot finish *)
+Lemma flush_loop_nospin ks : forall c : conn B, wf c -> snd (flush_loop c ks) = false.
+Proof.
+  induction ks as [|k ks IH]; intros c Hwf; cbn [flush_loop]; unfold wf in Hwf;
+    destruct (wlist c) as [|[d off|fid off rem] rest] eqn:El; cbn [snd]; auto;
+    apply Forall_cons_iff in Hwf as [Hit Hrest]; cbn in Hit.
+  - destruct (blen d <=? off)%N eqn:E; [lia|reflexivity].
+  - destruct (rem <=? 0)%Z eqn:E; [lia|reflexivity].
+  - destruct (blen d <=? off)%N eqn:E; [lia|].
+    destruct k as [k0| | |e]; cbn [snd]; auto.
+    + apply IH. unfold wf; cbn [wlist set_wlist set_left add_wire].
+      destruct (_ =? _)%N eqn:En; auto. constructor; auto. cbn. lia.
+    + apply IH. unfold wf. rewrite El. constructor; auto.
+  - destruct (rem <=? 0)%Z eqn:E; [lia|].
+    destruct k as [k0| | |e]; cbn [snd]; auto.
+    + apply IH. unfold wf; cbn [wlist set_wlist set_left add_wire].
+      destruct (_ =? _)%Z eqn:En; auto. constructor; auto. cbn. lia.
+    + apply IH. unfold wf. rewrite El. constructor; auto.
+Qed.
+
+Lemma wf_not_degenerate (c : conn B) : wf c -> degenerate c = false.
+Proof.
+  unfold wf, degenerate. induction 1 as [|it l Hit _ IH]; cbn [existsb]; auto.
+  rewrite IH, orb_false_r. destruct it; cbn in *; lia.
+Qed.
+
 Lemma op_flush_inv acc c ks :
   Inv acc c -> Inv (acc ++ den (rcredit (snd (op_flush c ks)))) (fst (op_flush c ks)).
 Proof.
@@ -326,62 +353,78 @@ Proof.
 Qed.
 
 (* ---- Sendfile ---- *)
-Definition sf_post (acc : list A) (fid : N) (off remain total : Z) (df : bool) (r : conn B * Z * err * Z) : Prop :=
+(* [sf_loop c fid off remain total df ks]: what it returns, in terms of the offset reached [endoff] *)
+Definition sf_post (acc : list A) (c : conn B) (fid : N) (off remain total : Z) (r : conn B * Z * err * Z) : Prop :=
   let '(c1, n, e, endoff) := r in
   Inv (acc ++ fdata fid off (endoff - off)) c1 /\ (off <= endoff)%Z /\ (endoff <= off + Z.max 0 remain)%Z /\
-  (e = ENone -> n = total /\ closed c1 = false /\ (df = false -> endoff = off + Z.max 0 remain)%Z) /\
-  (e <> ENone -> closed c1 = true /\ n = 0%Z /\ exists x, e = EErrno x).
+  (e = ENone -> n = total /\ closed c1 = false /\ endoff = (off + Z.max 0 remain)%Z) /\
+  (e <> ENone ->
+     (closed c1 = true /\ n = 0%Z /\ exists x, e = EErrno x) \/
+     (e = EDupFail /\ closed c1 = false /\ n = (total - remain + (endoff - off))%Z /\ wlist c1 = wlist c /\ left c1 = left c)).
 
 Ltac five := split; [|split; [|split; [|split]]].
 
-(* the loop stops without having queued anything: everything sent, or Dup failed *)
-Lemma sf_post_stop acc c fid off remain total df :
-  Inv acc c -> closed c = false -> (remain <= 0)%Z \/ df = true ->
-  sf_post acc fid off remain total df (c, total, ENone, off).
+(* everything sent *)
+Lemma sf_post_done acc c fid off remain total :
+  Inv acc c -> closed c = false -> (remain <= 0)%Z ->
+  sf_post acc c fid off remain total (c, total, ENone, off).
 Proof.
   intros HI Hc Hd. unfold sf_post. rewrite Z.sub_diag. five.
   - rewrite (fdata_nonpos den) by lia. now rewrite app_nil_r.
   - lia.
   - lia.
-  - intros _. split; [reflexivity|]. split; [exact Hc|]. intros ->. destruct Hd as [Hd|Hd]; [lia|discriminate].
+  - intros _. split; [reflexivity|]. split; [exact Hc|lia].
   - congruence.
 Qed.
 
-Lemma sf_post_queue acc c fid off remain total df :
+(* EAGAIN, Dup failed: nothing queued, the count of what was sent is reported with the error *)
+Lemma sf_post_dupfail acc c fid off remain total :
+  Inv acc c -> closed c = false -> (0 < remain)%Z ->
+  sf_post acc c fid off remain total (c, (total - remain)%Z, EDupFail, off).
+Proof.
+  intros HI Hc Hr. unfold sf_post. rewrite Z.sub_diag. five.
+  - rewrite (fdata_nonpos den) by lia. now rewrite app_nil_r.
+  - lia.
+  - lia.
+  - discriminate.
+  - intros _. right. split; [reflexivity|]. split; [exact Hc|]. split; [lia|]. split; reflexivity.
+Qed.
+
+Lemma sf_post_queue acc c fid off remain total :
   Inv acc c -> closed c = false -> (0 <= off)%Z -> (0 < remain)%Z ->
-  sf_post acc fid off remain total df (mod_write (push c (File fid off remain)), total, ENone, (off + remain)%Z).
+  sf_post acc c fid off remain total (mod_write (push c (File fid off remain)), total, ENone, (off + remain)%Z).
 Proof.
   intros HI Hc Ho Hr. unfold sf_post. five.
   - replace (off + remain - off)%Z with remain by lia.
-    apply mod_write_inv. now apply (push_inv acc c (File fid off remain)).
+    apply mod_write_inv. apply (push_inv acc c (File fid off remain)); auto. cbn. lia.
   - lia.
   - lia.
   - intros _. split; [reflexivity|]. split; [|lia]. now rewrite mod_write_closed.
   - congruence.
 Qed.
 
-Lemma sf_post_fatal acc c fid off remain total df x :
+Lemma sf_post_fatal acc c fid off remain total x :
   Inv acc c -> closed c = false ->
-  sf_post acc fid off remain total df (close_with c (EErrno x), 0%Z, EErrno x, off).
+  sf_post acc c fid off remain total (close_with c (EErrno x), 0%Z, EErrno x, off).
 Proof.
   intros HI Hc. unfold sf_post. rewrite Z.sub_diag. five.
   - rewrite (fdata_nonpos den) by lia. rewrite app_nil_r. now apply close_inv.
   - lia.
   - lia.
   - discriminate.
-  - intros _. split; [reflexivity|]. split; [reflexivity|]. now exists x.
+  - intros _. left. split; [reflexivity|]. split; [reflexivity|]. now exists x.
 Qed.
 
 Lemma sf_loop_spec fid total df ks : forall acc c off remain,
   Inv acc c -> closed c = false -> wlist c = [] -> (0 <= off)%Z ->
-  sf_post acc fid off remain total df (sf_loop c fid off remain total df ks).
+  sf_post acc c fid off remain total (sf_loop c fid off remain total df ks).
 Proof.
   induction ks as [|k ks IH]; intros acc c off remain HI Hc Hl Ho; cbn [sf_loop].
   - destruct (remain <=? 0)%Z eqn:Er.
-    + apply sf_post_stop; auto. left; lia.
-    + destruct df. apply sf_post_stop; auto. apply sf_post_queue; auto; lia.
+    + apply sf_post_done; auto. lia.
+    + destruct df. apply sf_post_dupfail; auto; lia. apply sf_post_queue; auto; lia.
   - destruct (remain <=? 0)%Z eqn:Er.
-    { apply sf_post_stop; auto. left; lia. }
+    { apply sf_post_done; auto. lia. }
     destruct k as [k0| | |x].
     + set (m := Z.min (Z.pos k0) (Z.min maxsend remain)) in *.
       assert (Hm : (0 < m <= remain)%Z) by lia.
@@ -394,10 +437,10 @@ Proof.
         rewrite app_assoc. replace (endoff - off - m)%Z with (endoff - (off + m))%Z by lia. exact I1.
       * lia.
       * lia.
-      * intros He. destruct (I4 He) as (J1 & J2 & J3). split; [exact J1|]. split; [exact J2|].
-        intros Hdf. specialize (J3 Hdf). lia.
-      * exact I5.
-    + destruct df. apply sf_post_stop; auto. apply sf_post_queue; auto; lia.
+      * intros He. destruct (I4 He) as (J1 & J2 & J3). split; [exact J1|]. split; [exact J2|]. lia.
+      * intros He. destruct (I5 He) as [J|(J1 & J2 & J3 & J4 & J5)]; [left; exact J|].
+        right. split; [exact J1|]. split; [exact J2|]. split; [lia|]. split; [exact J4|exact J5].
+    + destruct df. apply sf_post_dupfail; auto; lia. apply sf_post_queue; auto; lia.
     + now apply IH.
     + now apply sf_post_fatal.
 Qed.
@@ -406,6 +449,8 @@ Lemma op_sendfile_inv acc c fid pos req df ks :
   Inv acc c -> Inv (acc ++ den (rcredit (snd (op_sendfile c fid pos req df ks)))) (fst (op_sendfile c fid pos req df ks)).
 Proof.
   intros HI. unfold op_sendfile. destruct (closed c) eqn:Hc.
+  { cbn. now rewrite (den_nil den L), app_nil_r. }
+  destruct (sf_remain fid (Z.of_N pos) req <=? 0)%Z eqn:Er.
   { cbn. now rewrite (den_nil den L), app_nil_r. }
   destruct (wlist c) as [|it l] eqn:El.
   - destruct (sf_loop c fid (Z.of_N pos) _ _ df ks) as [[[c1 n] e] endoff] eqn:E. cbn [fst snd rcredit].
